@@ -18,6 +18,7 @@ from mc.report import Recorder
 
 PID = "C20"
 LEVEL = "model_checking"
+REDUCED = {'quick': 'multi-step calls from every third reachable state'}
 RULE = ("states = sequences reachable from the start sequences through real single greedy steps; transitions = real "
         "greedy_substitution(max_iter=1, tol=0) calls, each checked against the brute-force step relation; "
         "traces validated = multi-step calls (max_iter, tol) on the real code compared with the composition of "
